@@ -34,7 +34,7 @@ def calibrate():
 
 
 def strategy(tier):
-    return Lm.case_st(tier, pairs=PAIRS, cfi=True)
+    return Lm.case_st(tier, pairs=PAIRS, cfi=True, ivs=True)
 
 
 def budget(tier):
